@@ -149,7 +149,7 @@ type TLCResult struct {
 var (
 	reStates   = regexp.MustCompile(`^(\d+) states generated, (\d+) distinct states found`)
 	reDepth    = regexp.MustCompile(`^The depth of the complete state graph search is (\d+)`)
-	reInv      = regexp.MustCompile(`^Error: (Invariant \S+ is violated.*|Action property \S+ is violated.*|Temporal properties were violated.*|Deadlock reached.*)`)
+	reInv      = regexp.MustCompile(`^Error: (Invariant \S+ is violated.*|Action property \S+ is violated.*|Temporal properties were violated.*|Deadlock reached.*|Postcondition \S+ .*is false.*)`)
 	reErr      = regexp.MustCompile(`^Error: (.*)`)
 	reCov      = regexp.MustCompile(`^<(\w+) line \d+, col \d+ to line \d+, col \d+ of module (\w+)>: (\d+):(\d+)`)
 	reProgress = regexp.MustCompile(`^Progress\(`)
